@@ -206,6 +206,33 @@ def build_multi(v, backend, perm, unit, swap=False):
         )
 
 
+NBIG = 40
+
+
+def build_big(v, backend, unit, reverse=False):
+    """40 points, straight line, one correlated and one uncorrelated y source: with this many points the PRODUCT of the variances
+    leaves the floating-point range already for everyday unit factors (1e5: (1e9)^40), their log-sum does not"""
+    import kafe2
+
+    i = np.arange(NBIG, dtype=float)
+    x = 0.5 + 0.25 * i + 0.03 * np.sin(1.7 * i + v)
+    noise = 0.3 * np.sin(2.3 * i + 0.5 * v) + 0.15 * np.cos(0.9 * i)
+    y = (0.8 * x + 1.5 + noise) * unit
+    e1 = (0.25 + 0.1 * np.cos(1.3 * i + v) ** 2) * unit
+    e2 = (0.12 + 0.05 * np.sin(0.7 * i) ** 2) * unit
+    if reverse:
+        x, y, e1, e2 = x[::-1], y[::-1], e1[::-1], e2[::-1]
+    ns = {}
+    exec("def model(x, a=%r, b=%r):\n    return a * x + b\n" % (1.0 * unit, 1.0 * unit), ns)
+    with warnings.catch_warnings():
+        warnings.simplefilter("ignore")
+        f = kafe2.XYFit([x, y], ns["model"], minimizer=backend)
+        f.add_error("y", e1)
+        f.add_error("y", e2, correlation=(0.5, 0.3, 0.7)[v % 3])
+        f.do_fit()
+    return summary(f, ["a", "b"], None)
+
+
 def orders(npar, tier):
     allp = list(itertools.permutations(range(npar)))
     if tier == "quick" and npar > 3:
@@ -222,7 +249,7 @@ def transformations(name, tier):
     os_ = orders(npar, tier)
     if npar > 3:
         os_ = os_[:6] if tier != "quick" else os_
-    units = [1.0, 1e-3, 7.0, 1e3, 1e-5, 1e5, 1e20]  # 1e20: products of N variances leave the floating-point range, sums of logarithms do not
+    units = [1.0, 1e-3, 7.0, 1e3, 1e-5, 1e5]
     out = []
     if tier == "quick":
         for pn, p in ps[1:]:
@@ -252,18 +279,21 @@ def jobs(tier, seed):
                     specs.append((name, backend, vv, tier, sh, nsh))
         for backend in ("iminuit", "scipy"):
             specs.append(("multi-shared", backend, vv, tier, 0, 1))
+        specs.append(("lin40-rho", "iminuit", vv, tier, 0, 1))
     return specs
 
 
 def bound(tier, seed):
     if tier == "quick":
-        return "8 problems x 2 backends x {7 point permutations, all parameter orders, unit factors 1e-5 / 1e-3 / 7 / 1e3 / 1e5 / 1e20 (iminuit), 2 combined transformations}, each applied to the untransformed problem; valuation %d" % (seed % 3)
-    return "11 problems x 2 backends x full product of 14 point permutations x all parameter orders (<= 6) x unit factors {1, 1e-5, 1e-3, 7, 1e3, 1e5, 1e20 (iminuit)}; valuations 0,1,2"
+        return "8 problems x 2 backends x {7 point permutations, all parameter orders, unit factors 1e-5 / 1e-3 / 7 / 1e3 / 1e5, 2 combined; a 40-point correlated straight-line problem x the unit factors x {id, reverse} (iminuit) transformations}, each applied to the untransformed problem; valuation %d" % (seed % 3)
+    return "11 problems x 2 backends x full product of 14 point permutations x all parameter orders (<= 6) x unit factors {1, 1e-5, 1e-3, 7, 1e3, 1e5}; a 40-point correlated straight-line problem (iminuit); valuations 0,1,2"
 
 
 def run_case(name, backend, v, perm, order, unit):
     import inspect
 
+    if name == "lin40-rho":
+        return compare(build_big(v, backend, 1.0), build_big(v, backend, unit, reverse=list(perm)[:1] != [0]), {"a": unit, "b": unit}, unit, backend, NBIG)
     if name == "multi-shared":
         base = build_multi(v, backend, list(range(N)), 1.0)
         return compare(base, build_multi(v, backend, perm, unit, swap=list(order) == [1, 0]), {k: unit for k in "abc"}, unit, backend, 2 * N)
@@ -307,15 +337,43 @@ def run_multi_job(spec):
     return res.as_dict()
 
 
+def run_big_job(spec):
+    name, backend, v, tier, shard, nshard = spec
+    res = JobResult()
+    base = build_big(v, backend, 1.0)
+    res.executions += 1
+    for unit in (1.0, 1e-5, 1e-3, 7.0, 1e3, 1e5):
+        for rev in (False, True):
+            if unit == 1.0 and not rev:
+                continue
+            hist = [dict(name=name, backend=backend, v=v, perm=list(range(N))[::-1] if rev else list(range(N)), order=[0, 1], unit=unit)]
+            try:
+                bad = compare(base, build_big(v, backend, unit, reverse=rev), {"a": unit, "b": unit}, unit, backend, NBIG)
+            except Exception as e:  # noqa: BLE001
+                bad = [("do_fit", "no exception", "%s: %s" % (type(e).__name__, str(e)[:120]), "exception:" + type(e).__name__)]
+            res.executions += 1
+            res.transitions += 4
+            res.evaluations += 10
+            key = (name, backend, v, rev, unit)
+            res.state(key)
+            res.nontriv(key)
+            res.observe((key, len(bad)))
+            res.outcomes[(name, backend, "perm" if rev else "unit", "ok" if not bad else "VIOLATION")] += 1
+            res.facts["transform:big"] += 1
+            for o, e, a, m in bad:
+                res.violation("%s/%s|perm=%s|order=01|unit=%g" % (name, backend, "reverse" if rev else "id", unit), hist, o, e, a, m)
+    res.sample(dict(problem=name, backend=backend, points=NBIG))
+    return res.as_dict()
+
+
 def run_job(spec):
     name, backend, v, tier, shard, nshard = spec
     if name == "multi-shared":
         return run_multi_job(spec)
+    if name == "lin40-rho":
+        return run_big_job(spec)
     res = JobResult()
     trs = [t for i, t in enumerate(transformations(name, tier)) if i % nshard == shard]
-    # the extreme unit is explored with iminuit only (the scipy backend's scale dependence is a known finding); 1e-20 is not generated
-    # at all: MINUIT's own step-size logic fails for parameters of that size (HESSE errors wrong), which is not kafe2's labelling
-    trs = [t for t in trs if not (backend == "scipy" and t[3] >= 1e19)]
     import inspect
 
     npar = len(inspect.signature(ref.MODELS[PROBLEMS[name]["model"]]).parameters) - 1
